@@ -5,6 +5,7 @@ model's scanner and matcher) and engine `taskrun` in child processes (every task
 import base64
 import itertools
 import json
+import re
 import vlib
 
 TRUSTED = [
@@ -120,6 +121,9 @@ def gen_cases(ctx):
     return cases
 
 
+FMT_LINES = {"success": ["out"], "failure": ["x"], "allowed-failure": ["x", "y"], "failing-after": ["o"], "interactive": ["asking"]}
+
+
 def fmt_cases(ctx):
     """task outcomes x formats, one child process each (a crash or a hang of the child is an observation)"""
     kinds = {
@@ -130,6 +134,8 @@ def fmt_cases(ctx):
         "failing-before": {"commands": ["printf 'no\\n'"], "before": ["exit 2"]},
         "condition-error": {"commands": ["printf 'no\\n'"], "condition": "echo {{.Undefined}}"},
         "failing-after": {"commands": ["printf 'o\\n'"], "after": ["exit 9"]},
+        # an interactive task is shown raw whatever the selected format; the tasks after it get the selected format again
+        "interactive": {"commands": ["printf 'asking\\n'"], "interactive": True},
     }
     cases = []
     for kind, t in kinds.items():
@@ -138,7 +144,8 @@ def fmt_cases(ctx):
             tt["name"] = "k-" + kind
             cases.append({"id": len(cases), "okind": kind, "format": fmt, "dir": ctx.workdir, "tasks": [tt], "plan": [{"op": "run", "tasks": [0]}]})
     # several outcomes in one process (the cockpit state is process-wide), repeated: lock-order problems are schedule dependent
-    seqs = [["skipped", "success"], ["success", "skipped", "failure", "failing-before", "success", "success"], ["success"] * 6, ["failure", "success", "allowed-failure"]]
+    seqs = [["skipped", "success"], ["success", "skipped", "failure", "failing-before", "success", "success"], ["success"] * 6, ["failure", "success", "allowed-failure"],
+            ["success", "interactive", "success", "failure"]]
     reps = 6 if ctx.tier == "thorough" else 3
     for sq in seqs:
         for fmt in ("raw", "prefixed", "cockpit"):
@@ -299,6 +306,19 @@ def run(ctx):
             if o.get("child_timeout") or o.get("hung"):
                 res.violations.append({"class": None, "what": "the run hung in the output layer (format %s)" % c["format"], "case": rc, "observed": str(o)[-1500:]})
                 continue
+            # what the stream shows: every output line of every task, decorated as the SELECTED format says (an interactive task: raw)
+            if c["format"] in ("raw", "prefixed"):
+                stream = re.sub(r"\x1b\[[0-9;]*m", "", base64.b64decode(o.get("stdout_b64") or "").decode("utf-8", "replace"))
+                shown = [l.rstrip("\r") for l in stream.split("\n")]
+                want = []
+                for t in c["tasks"]:
+                    for l in FMT_LINES.get(t["name"].split("-", 1)[1], []):
+                        want.append(l if (c["format"] == "raw" or t.get("interactive")) else "%s: %s" % (t["name"], l))
+                missing = [w for w in want if w not in shown]
+                if missing:
+                    res.violations.append({"class": None, "what": "format %s: a line of a task's output is missing from the stream or is not decorated as the selected format says" % c["format"],
+                                           "case": rc, "observed": {"missing": missing, "stream": stream[-800:]}})
+                    continue
             proj = [(r["task"], r["err"], r["errored"], r["skipped"], r["exit_code"], r["output_b64"]) for r in sorted(o.get("results") or [], key=lambda r: r["task"])]
             byk.setdefault(c["okind"], {})[c["format"]] = (proj, rc)
         for kind, d in byk.items():
